@@ -220,6 +220,23 @@ def F22():
     return None
 
 
+def F23():
+    """C05/C17: a CONNACK carrying Maximum Packet Size > 268435455 (a legal four-byte value) makes loop_read() raise."""
+    w = World()
+    c = mk_client(w, proto=5)
+    got = []
+    c.on_connect = lambda cl, ud, flags, rc, props: got.append(getattr(props, "MaximumPacketSize", None))
+    c.connect("broker", 1883, 60)
+    w.cur().feed(wire.enc_connack(5, props=[(39, 4294967295)]))
+    try:
+        c.loop_read()
+    except Exception as e:  # noqa: BLE001
+        return f"loop_read() raises {type(e).__name__} on CONNACK with Maximum Packet Size 4294967295"
+    if got != [4294967295]:
+        return f"on_connect saw MaximumPacketSize={got}"
+    return None
+
+
 def F8():
     """C06: WebSocket, transport accepts 5 bytes of a frame -> packet dropped from the queue."""
     w = World()
@@ -410,7 +427,7 @@ def F18():
 
 
 ALL = {"F1": F1, "F2": F2, "F3": F3, "F4": F4, "F4b": F4b, "F5": F5, "F6": F6, "F7": F7, "F8": F8, "F9": F9,
-       "F10": F10, "F19": F19, "F20": F20, "F21": F21, "F22": F22, "F11": F11, "F12": F12, "F13": F13, "F15": F15, "F16": F16, "F17": F17, "F18": F18}
+       "F10": F10, "F19": F19, "F20": F20, "F21": F21, "F22": F22, "F23": F23, "F11": F11, "F12": F12, "F13": F13, "F15": F15, "F16": F16, "F17": F17, "F18": F18}
 
 
 def run(name):
